@@ -210,6 +210,19 @@ def agc_experiment(nc, ns, wl, si, ndead, seed, f32):
     x[:, : ns // 3] *= 30
     dead = rng.choice(nc, ndead, replace=False) if ndead else []
     x[dead] = 0
+    # live channels whose samples sum to exactly zero (integer ADC counts of a balanced biphasic artefact, a square wave):
+    # "flat" is a statement about the magnitude of a channel, not about its sum
+    live = [c for c in range(nc) if c not in set(np.atleast_1d(dead).tolist())]
+    if live and seed % 2 == 0:
+        c = live[seed % len(live)]
+        half = np.round(rng.standard_normal(ns // 2) * 50)
+        x[c] = 0
+        x[c, : ns // 2] = half
+        x[c, ns // 2: 2 * (ns // 2)] = -half[::-1]
+        if len(live) > 1:
+            c2 = live[(seed // 2) % len(live)]
+            if c2 != c:
+                x[c2] = np.where(np.arange(ns) % 2 == 0, 7.0, -7.0) * (1 if ns % 2 == 0 else 0) + (0 if ns % 2 == 0 else x[c2])
     if f32:
         x = x.astype(np.float32)
     keep = x.copy()
